@@ -731,7 +731,10 @@ class MemorizedFunc(Logger):
             old_func_code, old_first_line = extract_first_line(
                 self.store_backend.get_cached_func_code([self.func_id])
             )
-        except (IOError, OSError):  # some backend can also raise OSError
+        except (IOError, OSError, UnicodeDecodeError):
+            # some backend can also raise OSError; the stored code cannot be
+            # decoded when its write was interrupted inside a multi-byte
+            # character
             self._write_func_code(func_code, first_line)
             return False
         if old_func_code == func_code:
